@@ -211,10 +211,16 @@ pub struct DecObs {
 // ======================================================================
 // Object-safe encoder / decoder
 
+/// message of the panic raised by `encode_then_unwind` / `decode_then_unwind`
+pub const USER_PANIC: &str = "harness: user code panics while it holds the result";
+
 pub trait DynEnc {
     fn add(&mut self, shard: &[u8]) -> Result<(), Error>;
     /// the shard as any `AsRef<[u8]>` value (see `Shifty`)
     fn add_any(&mut self, shard: &dyn AsRef<[u8]>) -> Result<(), Error>;
+    /// encode, then panic (`USER_PANIC`) while the result is alive: the result
+    /// is dropped by unwinding. Returns only if encode fails.
+    fn encode_then_unwind(&mut self) -> Result<(), Error>;
     fn encode_obs(&mut self, probes: &[usize]) -> Result<EncObs, Error>;
     /// encode and read every result through the accessors without copying
     /// (no heap allocation by the harness): (digest, address of recovery(0))
@@ -228,6 +234,8 @@ pub trait DynDec {
     fn add_recovery(&mut self, index: usize, shard: &[u8]) -> Result<(), Error>;
     fn add_original_any(&mut self, index: usize, shard: &dyn AsRef<[u8]>) -> Result<(), Error>;
     fn add_recovery_any(&mut self, index: usize, shard: &dyn AsRef<[u8]>) -> Result<(), Error>;
+    /// like `DynEnc::encode_then_unwind`
+    fn decode_then_unwind(&mut self) -> Result<(), Error>;
     fn decode_obs(&mut self, probes: &[usize]) -> Result<DecObs, Error>;
     /// like `encode_touch`: (digest, address of the first restored shard)
     fn decode_touch(&mut self) -> Result<(u64, usize), Error>;
@@ -317,6 +325,11 @@ impl<E: Engine + 'static, T: RateEncoder<E>> DynEnc for RE<T, E> {
     fn add_any(&mut self, shard: &dyn AsRef<[u8]>) -> Result<(), Error> {
         self.0.add_original_shard(shard)
     }
+    fn encode_then_unwind(&mut self) -> Result<(), Error> {
+        let res = self.0.encode()?;
+        let _first = res.recovery(0).map(|s| s.len());
+        panic!("{USER_PANIC}");
+    }
     fn encode_obs(&mut self, probes: &[usize]) -> Result<EncObs, Error> {
         let res = self.0.encode()?;
         Ok(observe_enc(&res, probes))
@@ -346,6 +359,11 @@ impl<E: Engine + 'static, T: RateDecoder<E>> DynDec for RD<T, E> {
     fn add_recovery_any(&mut self, index: usize, shard: &dyn AsRef<[u8]>) -> Result<(), Error> {
         self.0.add_recovery_shard(index, shard)
     }
+    fn decode_then_unwind(&mut self) -> Result<(), Error> {
+        let res = self.0.decode()?;
+        let _n = res.restored_original_iter().count();
+        panic!("{USER_PANIC}");
+    }
     fn decode_obs(&mut self, probes: &[usize]) -> Result<DecObs, Error> {
         let res = self.0.decode()?;
         Ok(observe_dec(&res, probes))
@@ -371,6 +389,11 @@ impl DynEnc for WE {
     }
     fn add_any(&mut self, shard: &dyn AsRef<[u8]>) -> Result<(), Error> {
         self.0.add_original_shard(shard)
+    }
+    fn encode_then_unwind(&mut self) -> Result<(), Error> {
+        let res = self.0.encode()?;
+        let _first = res.recovery(0).map(|s| s.len());
+        panic!("{USER_PANIC}");
     }
     fn encode_obs(&mut self, probes: &[usize]) -> Result<EncObs, Error> {
         let res = self.0.encode()?;
@@ -400,6 +423,11 @@ impl DynDec for WD {
     }
     fn add_recovery_any(&mut self, index: usize, shard: &dyn AsRef<[u8]>) -> Result<(), Error> {
         self.0.add_recovery_shard(index, shard)
+    }
+    fn decode_then_unwind(&mut self) -> Result<(), Error> {
+        let res = self.0.decode()?;
+        let _n = res.restored_original_iter().count();
+        panic!("{USER_PANIC}");
     }
     fn decode_obs(&mut self, probes: &[usize]) -> Result<DecObs, Error> {
         let res = self.0.decode()?;
